@@ -125,13 +125,18 @@ func vpAtomicScript(mirror bool) {
 	}
 	cl := vpTwoMembers(replicas, 0)
 	ctx := context.Background()
+	entA, entB := vpChoose("entryA", 2), vpChoose("entryB", 2)
+	// the callers' handles are obtained first, as an embedded client does once; the DMap may then be destroyed
+	// (by anyone) and used again through the old handles - the callers still have to exclude each other
+	dmA, dmB := vpDMap(cl.members[entA], "d"), vpDMap(cl.members[entB], "d")
+	if !mirror && vpChoose("destroyed-in-between", 2) == 1 {
+		vpAssume(vpDMap(cl.members[vpDestroyer()], "d").Destroy(ctx) == nil)
+	}
 	base := 0
 	if vpChoose("init", 2) == 1 {
 		base = 10
 		vpAssume(vpDMap(cl.members[0], "d").Put(ctx, "n", 10, nil) == nil)
 	}
-	entA, entB := vpChoose("entryA", 2), vpChoose("entryB", 2)
-	dmA, dmB := vpDMap(cl.members[entA], "d"), vpDMap(cl.members[entB], "d")
 	var gotA, gotB int
 	var errA, errB error
 	// a caller may enter a millisecond after the other one (write timestamps are taken on entry, before the lock)
@@ -166,12 +171,15 @@ func vpAtomicScript(mirror bool) {
 func VerifC07_GetPut() {
 	cl := vpTwoMembers(1, 0)
 	ctx := context.Background()
+	entA, entB := vpChoose("entryA", 2), vpChoose("entryB", 2)
+	dmA, dmB := vpDMap(cl.members[entA], "d"), vpDMap(cl.members[entB], "d")
+	if vpChoose("destroyed-in-between", 2) == 1 { // handles taken before a Destroy stay in use
+		vpAssume(vpDMap(cl.members[vpDestroyer()], "d").Destroy(ctx) == nil)
+	}
 	hasInit := vpChoose("init", 2) == 1
 	if hasInit {
 		vpAssume(vpDMap(cl.members[0], "d").Put(ctx, "g", []byte{'i'}, nil) == nil)
 	}
-	entA, entB := vpChoose("entryA", 2), vpChoose("entryB", 2)
-	dmA, dmB := vpDMap(cl.members[entA], "d"), vpDMap(cl.members[entB], "d")
 	old := func(dm *DMap, v byte) byte {
 		e, err := dm.GetPut(ctx, "g", []byte{v})
 		if err != nil {
@@ -250,5 +258,44 @@ func VerifC07_Mixed() {
 	ab := gotA == base+effA && gotB == base+effA+effB
 	ba := gotB == base+effB && gotA == base+effA+effB
 	vpAssert(ab || ba, "returned-values-form-a-serial-order")
+	vpReach("end")
+}
+
+// the member through which the Destroy between handle creation and use is issued: member 1 in quick, any in thorough
+func vpDestroyer() int {
+	if vpBound("anydestroyer") == 1 {
+		return vpChoose("destroyer", 2)
+	}
+	return 1
+}
+
+// VerifC04_MirrorRace: two clients mutate the same key at the same time (Put / Put NX / Put XX / Delete of
+// solver-chosen kind, through either member) with ReplicaCount 2. Whatever the interleaving of lock sections and
+// replication RPCs, once both are acknowledged the backup copy equals the primary copy: the order in which the
+// backup applies the two operations is the order in which the primary applied them.
+func VerifC04_MirrorRace() {
+	cl := vpTwoMembers(2, 0)
+	if vpChoose("init", 2) == 1 {
+		vpAssume(vpDMap(cl.members[0], "d").Put(context.Background(), "k", []byte{'i'}, nil) == nil)
+	}
+	ops := [4]int{0, 1, 2, 4}
+	opA, opB := ops[vpChoose("opA", 4)], ops[vpChoose("opB", 4)]
+	entA, entB := vpChoose("entryA", 2), vpChoose("entryB", 2)
+	dmA, dmB := vpDMap(cl.members[entA], "d"), vpDMap(cl.members[entB], "d")
+	lateA, lateB := vpBool("lateA"), vpBool("lateB")
+	vpGo(func() {
+		if lateA {
+			vpSleepMs(1)
+		}
+		vpDoOp(dmA, opA, 'a')
+	})
+	vpGo(func() {
+		if lateB {
+			vpSleepMs(1)
+		}
+		vpDoOp(dmB, opB, 'b')
+	})
+	vpJoin()
+	vpCheckMirror(cl, "d", "k")
 	vpReach("end")
 }
